@@ -16,6 +16,7 @@ import Hpv.Ic
 import Hpv.Validate
 import Hpv.Io
 import Hpv.Obo
+import Hpv.Hpoa
 open Lean
 
 namespace Drv
@@ -476,6 +477,141 @@ def oboRecognise (j : Json) : Except String Json := do
   | _ => throw s!"unknown recogniser {which}"
 end C05
 
+/-! ### C08 -/
+section C08
+open Hpv.Hpoa
+
+def isVersionChar (c : Char) : Bool := c.isAlphanum || c = '_' || c = '-'
+
+/-- `HPOA_VERSION_PATTERN.match(line).group('version')` -/
+def hpoaVersion (line : String) : Option String :=
+  let l := if line.endsWith "\n" then (line.dropEnd 1).toString else line
+  let rest? : Option String :=
+    if l.startsWith "#date: " then some (l.drop 7).toString
+    else if l.startsWith "#version: " then some (l.drop 10).toString else none
+  match rest? with
+  | some r => if !r.isEmpty ∧ r.all isVersionChar then some r else none
+  | none => none
+
+def allDigits (s : String) : Bool := !s.isEmpty && s.all Char.isDigit
+
+/-- classification of the frequency cell by the four patterns of `_parse_frequency` -/
+def classifyFreq (f : String) : Freq :=
+  if f.isEmpty then .empty
+  else if f.startsWith "HP:" ∧ f.length = 10 ∧ allDigits (f.drop 3).toString then .term f
+  else
+    match f.splitOn "/" with
+    | [a, b] => if allDigits a ∧ allDigits b then .ratio a.toNat! b.toNat! else .bad
+    | _ =>
+      if f.endsWith "%" then
+        let v := (f.dropEnd 1).toString
+        match v.splitOn "." with
+        | [a] => if allDigits a then .percent a.toNat! 1 else .bad
+        | [a, b] =>
+          if allDigits a ∧ (b.isEmpty ∨ allDigits b) then .percent (a ++ b).toNat! (10 ^ b.length) else .bad
+        | _ => .bad
+      else .bad
+
+def aspectOf (s : String) : Option Aspect :=
+  match s.toUpper with
+  | "P" => some .P | "I" => some .I | "C" => some .C | "M" => some .M | _ => none
+
+def nonBlank (t : String) : Bool := !t.isEmpty && !(t.all Char.isWhitespace)
+
+/-- `_parse_hpoa_line`; references are kept as `curie-value|EVIDENCE` -/
+def parseHpoaLine (line : String) : Except Hpv.Err Line :=
+  let fields := (line.trim.splitOn "\t").toArray
+  if fields.size < 12 then .error .indexError
+  else
+    let ev := fields[5]!.toUpper
+    let evOk := ev = "IEA" ∨ ev = "TAS" ∨ ev = "PCS"
+    let refsRaw := (fields[4]!.splitOn ";").filter nonBlank
+    let modsRaw := (fields[9]!.splitOn ";").filter nonBlank
+    match Hpv.Obo.mapM' Hpv.Obo.termIdOf refsRaw, Hpv.Obo.mapM' Hpv.Obo.termIdOf modsRaw with
+    | some rs, some ms =>
+      if !rs.isEmpty ∧ !evOk then .error .valueError
+      else .ok ⟨fields[0]!, fields[1]!, fields[2]!.toUpper = "NOT", fields[3]!,
+                rs.map (fun t => Hpv.Obo.curieValue t ++ "|" ++ ev), fields[7]!, ms.map Hpv.Obo.curieValue, aspectOf fields[10]!⟩
+    | _, _ => .error .valueError
+
+/-- header handling of `load`: (version, parsed data lines) -/
+def hpoaLines (lines : List String) : Except Hpv.Err (Option String × List Line) :=
+  let rec go (ls : List String) (header : Bool) (version : Option String) (acc : List Line) : Except Hpv.Err (Option String × List Line) :=
+    match ls with
+    | [] => .ok (version, acc.reverse)
+    | l :: rest =>
+      if header then
+        if l.startsWith "#" then
+          if l.startsWith "#DatabaseID" then go rest false version acc
+          else match hpoaVersion l with
+            | some v => go rest true (some v) acc
+            | none => go rest true version acc
+        else if l.startsWith "database_id" then go rest false version acc
+        else go rest true version acc
+      else match parseHpoaLine l with
+        | .ok pl => go rest false version (pl :: acc)
+        | .error e => .error e
+  go lines true none []
+
+/-- admissible numerators of one line: both neighbours when the exact value is within 2^-30 of a tie -/
+def admissible (N D : Nat) : List Int :=
+  let q := N / D
+  let r := N % D
+  let dist := if 2 * r ≥ D then 2 * r - D else D - 2 * r        -- |2r - D|
+  if dist * 2 ^ 30 < 2 * D then [(q : Int), (q : Int) + 1] else [(roundHalfEven N D : Nat)]
+
+def lineNums (cfg : Config) (l : Line) : Except Hpv.Err (List Int × Int) :=
+  match classifyFreq l.freq with
+  | .term id =>
+    match cfg.table.find? (fun r => r.id = id) with
+    | none => .error .other
+    | some r => .ok (if l.neg then [0] else admissible (r.freq * cfg.cohort) r.denom, cfg.cohort)
+  | .percent pn pd => .ok (admissible (pn * cfg.cohort) (pd * 100), cfg.cohort)
+  | f => (lineRatio cfg l.neg f).map (fun r => ([r.1], r.2))
+
+def minkowski (a b : List Int) : List Int := (a.flatMap (fun x => b.map (fun y => x + y))).eraseDups
+
+def hpoaLoad (j : Json) : Except String Json := do
+  let lines ← j.getObjValAs? (List String) "lines"
+  let cohort ← j.getObjValAs? Nat "cohort"
+  let salvage ← j.getObjValAs? Bool "salvage"
+  let rows ← (← j.getObjValAs? (List Json) "table").mapM fun r => do
+    return (⟨← r.getObjValAs? String "id", ← r.getObjValAs? Nat "lower", ← r.getObjValAs? Nat "freq", ← r.getObjValAs? Nat "upper",
+             ← r.getObjValAs? Nat "denom"⟩ : FreqRow)
+  let cfg : Config := ⟨cohort, salvage, rows⟩
+  let tableOk := rows.all fun r => decide (0 < r.denom ∧ r.lower ≤ r.freq ∧ r.freq ≤ r.upper ∧ r.upper ≤ r.denom)
+  match hpoaLines lines with
+  | .error e => return Json.mkObj [("err", errName e), ("table_ok", tableOk)]
+  | .ok (version, pls) =>
+    match aggregate cfg classifyFreq pls with
+    | .error e => return Json.mkObj [("err", errName e), ("table_ok", tableOk)]
+    | .ok ds =>
+      -- ids must be CURIEs (`TermId.from_curie` on disease and phenotype ids)
+      let norm (s : String) : Option String := (Hpv.Obo.termIdOf s).map Hpv.Obo.curieValue
+      let mut out : Array Json := #[]
+      for d in ds do
+        match norm d.id with
+        | none => return Json.mkObj [("err", "ValueError"), ("table_ok", tableOk)]
+        | some did =>
+          let pl := (group (·.disease) pls d.id).filter (fun l => l.aspect = some .P)
+          let mut anns : Array Json := #[]
+          for a in d.anns do
+            match norm a.id with
+            | none => return Json.mkObj [("err", "ValueError"), ("table_ok", tableOk)]
+            | some aid =>
+              let ls := group (·.pheno) pl a.id
+              let nums := ls.foldl (fun acc l => match lineNums cfg l with
+                | .ok (ns, _) => minkowski acc ns
+                | .error _ => acc) [0]
+              anns := anns.push (Json.mkObj [("id", aid), ("nums", toJson nums), ("exact_num", toJson a.num), ("den", toJson a.den),
+                ("refs", toJson a.refs), ("mods", toJson a.mods)])
+          match Hpv.Obo.mapM' norm d.moi with
+          | none => return Json.mkObj [("err", "ValueError"), ("table_ok", tableOk)]
+          | some moi =>
+            out := out.push (Json.mkObj [("id", did), ("name", d.name), ("anns", Json.arr anns), ("moi", toJson moi)])
+      return Json.mkObj [("version", toJson version), ("diseases", Json.arr out), ("table_ok", tableOk)]
+end C08
+
 def handle (j : Json) : Except String Json := do
   let op ← j.getObjValAs? String "op"
   match op with
@@ -486,6 +622,7 @@ def handle (j : Json) : Except String Json := do
   | "graph.batch" => graphBatch j
   | "onto.lookup" => ontoLookup j
   | "sim.hist" => simHist j
+  | "hpoa.load" => hpoaLoad j
   | "obo.load" => oboLoad j
   | "obo.recognise" => oboRecognise j
   | "io.dispatch" => ioDispatch j
